@@ -1,7 +1,7 @@
 (* Props/C02.v — property theorems only. *)
 From Coq Require Import List NArith ZArith.
 From N0 Require Import Base.PyStr Base.PyVal Xpath.Dec Xpath.DecProofs Xpath.Token Xpath.TokenProofs
-  Xpath.Find Xpath.FindProofs Xpath.Write Xpath.SpecProofs Xpath.WalkProofs Xpath.SpellProofs Xpath.LongPathProofs Xpath.PutPut.
+  Xpath.Find Xpath.FindProofs Xpath.Write Xpath.SpecProofs Xpath.WalkProofs Xpath.SpellProofs Xpath.LongPathProofs Xpath.PutPut Xpath.PutGet.
 Import ListNotations.
 
 (* d[xpath] = v on a path that spells an existing node (by key, index, negative index;
@@ -38,6 +38,11 @@ Print Assumptions C02_frame.
 Theorem C02_put_put : forall t p v w, replace_at (replace_at t p v) p w = replace_at t p w.
 Proof. exact replace_replace. Qed.
 Print Assumptions C02_put_put.
+
+(* ... and writing back the value that is already there changes nothing *)
+Theorem C02_put_same : forall t p u, resolve t p = Some u -> replace_at t p u = t.
+Proof. exact replace_with_same. Qed.
+Print Assumptions C02_put_same.
 
 (* any finite sequence of such assignments, each addressing a node that exists when it is
    applied, equals the plain model that applied the same writes *)
